@@ -150,6 +150,10 @@ func (o Obj) describe(sb *strings.Builder) {
 type Op struct {
 	Operator string
 	Operands []Obj
+	// RawAfter, if not nil, is written verbatim after the operator, preceded
+	// by one white-space byte and followed by an end-of-line (the sample data
+	// of an inline image after ID, §8.9.7).
+	RawAfter []byte
 }
 
 // ---------------------------------------------------------------------------
@@ -413,6 +417,13 @@ func (w *Writer) Program(ops []Op) (spans [][2]int) {
 		}
 		spans = append(spans, [2]int{start, end})
 		w.Tok(op.Operator)
+		if op.RawAfter != nil {
+			w.buf.WriteByte(" \n\r"[w.R.Intn(3)])
+			w.buf.Write(op.RawAfter)
+			w.buf.WriteString(w.P.EOL.bytes())
+			w.lastReg = false
+			w.feat("inline-image-data")
+		}
 	}
 	if w.P.WS == WSMaximal || (w.P.WS == WSComments && !w.P.NoComments && w.R.Intn(2) == 0) {
 		w.sep(false) // trailing white space / comment
